@@ -246,9 +246,11 @@ def dba(s, c, mask=None, samples=None, use_c=False, nb_initial_samples=None, **k
             for seq in s:
                 print(seq)
             print(assoctab)
+        # fsum: the rounding of the sum does not depend on the type of the values (Python floats
+        # from array.array or lists versus numpy.float64 from arrays are added differently by sum)
         if ndim == 1:
-            cp[i] = sum(values) / len(values)  # barycenter
+            cp[i] = math.fsum(values) / len(values)  # barycenter
         else:
             for d in range(ndim):
-                cp[i, d] = sum([value[d] for value in values]) / len(values)
+                cp[i, d] = math.fsum([value[d] for value in values]) / len(values)
     return cp
